@@ -148,3 +148,49 @@ Theorem C17_inside_prefix_refuted :
     ~ exists comps, g_path e = {| p_root := p_root jd; p_parts := p_parts jd ++ comps |}.
 Proof. exact inside_prefix_refuted. Qed.
 Print Assumptions C17_inside_prefix_refuted.
+
+(* "the same configuration", continued: the identifier sorts the arguments by name, so the order in
+   which the parameters of a configuration were assigned (keyword order of the constructor, later
+   assignments: the order of the .values dict) does not make another configuration.  The walk
+   iterates xpmvalues(): declared arguments in declaration order, present in .values.
+   xpmvalues decl vals = that list; seal_edges_decl decls = the Sealer's edges from a node whose
+   `fields` are .values in assignment order; heap_reassigned h h' = node by node the same class,
+   the same (name, value) pairs in another order, the same pre-/init-tasks, task and sealed flag   *)
+Theorem C17_xpmvalues_order_irrelevant : forall decl vals vals',
+  Permutation vals vals' -> NoDup (map fst vals) -> xpmvalues decl vals = xpmvalues decl vals'.
+Proof. exact xpmvalues_perm. Qed.
+Print Assumptions C17_xpmvalues_order_irrelevant.
+
+Theorem C17_assignment_order_irrelevant : forall esc decls h h' gens root jd,
+  heap_reassigned h h' ->
+  generated esc (seal_edges_decl decls) h gens root jd = generated esc (seal_edges_decl decls) h' gens root jd.
+Proof. exact assignment_order_irrelevant. Qed.
+Print Assumptions C17_assignment_order_irrelevant.
+
+(* ... and it is the walk of all the theorems above, run on the heap put in declaration order *)
+Theorem C17_generated_by_decl : forall esc decls h gens root jd,
+  generated esc (seal_edges_decl decls) h gens root jd
+  = generated esc seal_edges (map (by_decl decls) h) gens root jd.
+Proof. exact generated_by_decl. Qed.
+Print Assumptions C17_generated_by_decl.
+
+Theorem C17_assigned_inside_distinct : forall decls h gens root jd l,
+  names_wf (map (by_decl decls) h) -> task_targets_cut (map (by_decl decls) h) ->
+  (forall c af, In c gens -> In af c -> plain (snd af) = true) ->
+  generated esc_fix (seal_edges_decl decls) h gens root jd = Some l ->
+  (forall e, In e l ->
+     exists comps, comps <> [] /\ Forall (fun c => plain c = true) comps /\
+       g_path e = {| p_root := p_root jd; p_parts := p_parts jd ++ comps |}) /\
+  (forall e1 e2, In e1 l -> In e2 l ->
+     (g_node e1, g_file e1) <> (g_node e2, g_file e2) -> g_path e1 <> g_path e2).
+Proof. exact assigned_inside_distinct. Qed.
+Print Assumptions C17_assigned_inside_distinct.
+
+(* a walk iterating .values.items() (assignment order): Main(c=s, c2=s) and Main(c2=s, c=s) give the
+   shared s two different paths                                                                *)
+Theorem C17_assignment_order_refuted :
+  exists h h' gens root jd,
+    heap_reassigned h h' /\
+    generated esc_fix seal_edges_assigned h gens root jd <> generated esc_fix seal_edges_assigned h' gens root jd.
+Proof. exact assignment_order_refuted. Qed.
+Print Assumptions C17_assignment_order_refuted.
